@@ -76,6 +76,10 @@ ASSUMPTIONS = [
     'un-stepped slice (documented by partition[::2])',
     'index(p) for p outside the interval: an exception or the adjacent outer '
     'cell is accepted',
+    'shared-grid / query-order: several partitions are built on one '
+    'RectGrid (and IntervalProd) object and properties are read in a '
+    'generated order; reading must not change any object (grid.stride stays '
+    'the documented 0.0 on one-point axes)',
     'mutate-inputs: the arrays the harness passed to the factories '
     '(coordinate vectors, min_pt/max_pt/cell_sides/shape as ndarrays) are '
     'changed in place afterwards; every partition built so far must keep all '
@@ -208,6 +212,38 @@ def _partition(draw, max_ndim=4, small=False):
     return pd
 
 
+SHARED_PADS = [0.0, 0.25, 0.5, 1.0, 2.5, 0.1, 3.0]
+
+
+@st.composite
+def _shared_partition(draw):
+    """Two or three partitions on the very same RectGrid object (and, for
+    'same_set' members, the very same IntervalProd object)."""
+    ndim = draw(st.sampled_from([1, 2, 2, 3]))
+    axes = [draw(_nonuniform_axis(rect=True)) for _ in range(ndim)]
+    if draw(st.booleans()):
+        # a length-1 axis: the grid alone does not fix a cell side there
+        k = draw(st.integers(0, ndim - 1))
+        axes[k]['c'] = axes[k]['c'][:1]
+    members = []
+    for j in range(draw(st.integers(2, 3))):
+        members.append({
+            'route': draw(st.sampled_from(['rect', 'rect', 'fromgrid'])),
+            'same_set': j > 0 and draw(st.integers(0, 3)) == 0,
+            'pads': [[draw(st.sampled_from(SHARED_PADS)),
+                      draw(st.sampled_from(SHARED_PADS))]
+                     for _ in range(ndim)]})
+    return {'ctor': 'shared', 'axes': axes, 'members': members,
+            'inputs_as': draw(st.sampled_from(['ndarray', 'list']))}
+
+
+READS = ['cell_sides', 'cell_volume', 'cell_boundary_vecs',
+         'boundary_cell_fractions', 'cell_sizes_vecs', 'grid.stride',
+         'grid.extent', 'is_uniform', 'nodes_on_bdry', 'extent',
+         'grid.mid_pt', 'mid_pt', 'has_isotropic_cells', 'grid.min_pt',
+         'max_pt', 'is_uniform_byaxis', 'cell_sides', 'cell_volume']
+
+
 def _entry():
     r = st.integers(0, 999)
     sixteenth = st.integers(0, 16)
@@ -296,7 +332,14 @@ def _axis_sel(draw, allow_list=True):
 def _op(draw):
     kind = draw(st.sampled_from(
         ['getitem'] * 10 + ['insert'] * 2 + ['append'] * 2 +
-        ['squeeze'] * 3 + ['byaxis'] * 3 + ['mutate-inputs'] * 2))
+        ['squeeze'] * 3 + ['byaxis'] * 3 + ['mutate-inputs'] * 2 +
+        ['query-order'] * 2))
+    if kind == 'query-order':
+        return {'op': 'query-order',
+                'reads': draw(st.lists(
+                    st.tuples(st.integers(0, 99),
+                              st.integers(0, len(READS) - 1)).map(list),
+                    min_size=2, max_size=14))}
     if kind == 'mutate-inputs':
         return {'op': 'mutate-inputs',
                 'how': draw(st.sampled_from(['shift', 'reverse', 'fill']))}
@@ -321,7 +364,8 @@ def _op(draw):
 
 @st.composite
 def _strategy(draw):
-    init = draw(_partition())
+    init = draw(_shared_partition()) if draw(st.integers(0, 5)) == 0 else \
+        draw(_partition())
     nops = draw(st.sampled_from([0, 1, 2, 3, 4, 5, 6, 8]))
     ops = [draw(_op()) for _ in range(nops)]
     return {'init': init, 'ops': ops}
@@ -520,7 +564,53 @@ def build_rect(pd):
     return part, model, {'kind': 'rect', 'inputs': inputs}
 
 
+def build_shared(pd):
+    """Several partitions on one RectGrid object."""
+    axes = pd['axes']
+    vecs = [list(a['c']) for a in axes]
+    if pd.get('inputs_as') == 'ndarray':
+        vecs = [np.array(v, dtype=float) for v in vecs]
+    grid = odl.RectGrid(*vecs)
+    members = []
+    first_set = None
+    first_lims = None
+    for j, mb in enumerate(pd['members']):
+        los = [float(np.float64(a['c'][0]) - pad[0])
+               for a, pad in zip(axes, mb['pads'])]
+        his = [float(np.float64(a['c'][-1]) + pad[1])
+               for a, pad in zip(axes, mb['pads'])]
+        if mb['same_set'] and first_set is not None:
+            los, his = first_lims
+        try:
+            if mb['same_set'] and first_set is not None:
+                part = odl.RectPartition(first_set, grid)
+                label = 'member {} (same grid and set objects)'.format(j)
+            elif mb['route'] == 'fromgrid':
+                part = odl.uniform_partition_fromgrid(grid, min_pt=list(los),
+                                                      max_pt=list(his))
+                label = 'member {} (fromgrid, same grid object)'.format(j)
+            else:
+                intv = odl.IntervalProd(los, his)
+                if first_set is None:
+                    first_set, first_lims = intv, (los, his)
+                part = odl.RectPartition(intv, grid)
+                label = 'member {} (same grid object)'.format(j)
+        except REJECT as e:
+            raise Violation('C14|construct-rejected|shared-grid|plain',
+                            'grid inside the interval rejected: {}'.format(e))
+        if first_set is None:
+            first_set, first_lims = part.set, (los, his)
+        _require_partition(part, 'shared-grid', len(axes))
+        model = [Axis(a['c'], lo, hi) for a, lo, hi in zip(axes, los, his)]
+        members.append((part, model, label))
+    info = {'kind': 'rect', 'members': members, 'grid': grid,
+            'inputs': [v for v in vecs if isinstance(v, np.ndarray)]}
+    return members[0][0], members[0][1], info
+
+
 def build_partition(pd):
+    if pd['ctor'] == 'shared':
+        return build_shared(pd)
     if pd['ctor'] == 'uniform':
         return build_uniform(pd)
     if pd['ctor'] == 'nonuniform':
@@ -653,6 +743,25 @@ def check_invariants(part, model, where, info=None):
             bad('is-uniform', 'axis {}: {} for points {}'.format(
                 i, got_uni, ax.c.tolist()))
         all_uniform = all_uniform and got_uni
+    # --- the grid object: stride is the documented 0.0 on one-point axes,
+    # NaN on non-uniform axes, the node spacing otherwise
+    stride = _vec(part.grid.stride, ndim, 'grid.stride', where)
+    gext = _vec(part.grid.extent, ndim, 'grid.extent', where)
+    for i, ax in enumerate(model):
+        if ax.n == 1:
+            if stride[i] != 0.0:
+                bad('grid-stride', 'axis {}: grid.stride is {!r} on a '
+                    'one-point axis (documented 0.0)'.format(i, stride[i]))
+        elif bool(part.is_uniform_byaxis[i]):
+            want = (LD(ax.c[-1]) - LD(ax.c[0])) / (ax.n - 1)
+            if not abs(stride[i] - want) <= 8 * EPS * ref.scale(ax):
+                bad('grid-stride', 'axis {}: grid.stride {!r} expected {!r}'
+                    ''.format(i, stride[i], float(want)))
+        elif not np.isnan(stride[i]):
+            bad('grid-stride', 'axis {}: grid.stride {!r} on a non-uniform '
+                'axis (documented NaN)'.format(i, stride[i]))
+        if gext[i] != ax.c[-1] - ax.c[0]:
+            bad('grid-extent', 'axis {}: grid.extent {!r}'.format(i, gext[i]))
     if bool(part.is_uniform) != all_uniform:
         bad('is-uniform', 'is_uniform {} but by axis {}'.format(
             part.is_uniform, part.is_uniform_byaxis))
@@ -1022,6 +1131,21 @@ def run_case(desc):
     # and every partition seen so far
     inputs = list(info.get('inputs', []))
     history = [(part, model, 'init')]
+    if init['ctor'] == 'shared':
+        members = info['members']
+        history = list(members)
+        strata.append('shared:members={}'.format(len(members)))
+        if any(mb['same_set'] for mb in init['members'][1:]):
+            strata.append('shared:same-set-object')
+        if any(a.n == 1 for a in model):
+            strata.append('shared:one-point-axis')
+        for mpart, mmodel, label in members[1:]:
+            try:
+                check_invariants(mpart, mmodel, 'init:shared')
+            except Violation as v:
+                raise Violation(v.signature, label + ': ' + v.detail)
+            nprobe += check_index(mpart, mmodel, 'init:shared', full=False)
+        recheck_all(history, 'init:shared', 'construction of all members')
     if any(a.dtype == np.float64 for a in inputs):
         strata.append('inputs-as:float64-ndarray')
     notes['mutated_arrays'] = 0
@@ -1035,17 +1159,29 @@ def run_case(desc):
         name = op['op']
         ndim = len(model)
         shape = tuple(a.n for a in model)
+        if name == 'query-order':
+            nread = 0
+            for r_part, r_prop in op['reads']:
+                target = history[r_part % len(history)][0]
+                if target.ndim == 0:
+                    continue
+                obj = target
+                for attr in READS[r_prop % len(READS)].split('.'):
+                    obj = getattr(obj, attr)
+                nread += 1
+            recheck_all(history, 'query-order',
+                        'step {}: reading {} properties'.format(k, nread))
+            notes['property_reads'] = notes.get('property_reads', 0) + nread
+            notes['history_rechecks'] += len(history)
+            strata.append('op:query-order')
+            strata.append('query-order:partitions={}'.format(
+                min(len(history), 4)))
+            continue
         if name == 'mutate-inputs':
             nmut = mutate_arrays(inputs, op['how'])
-            for old_part, old_model, label in history:
-                try:
-                    check_invariants(old_part, old_model, 'mutate-inputs')
-                except Violation as v:
-                    raise Violation(v.signature, 'step {}: after changing the '
-                                    '{} caller-owned input arrays in place '
-                                    '({}), the partition from "{}" changed: {}'
-                                    ''.format(k, nmut, op['how'], label,
-                                              v.detail))
+            recheck_all(history, 'mutate-inputs',
+                        'step {}: after changing the {} caller-owned input '
+                        'arrays in place ({})'.format(k, nmut, op['how']))
             if ndim:
                 nprobe += check_index(part, model, 'mutate-inputs',
                                       full=False)
@@ -1187,6 +1323,41 @@ def run_case(desc):
     nontriv = (len(desc['init']['axes']) >= 2 or has_bdry or
                'one-point-axis' in strata or 'nonuniform-axis' in strata)
     return Outcome('ok', strata=strata, nontrivial=nontriv, notes=notes)
+
+
+def _nan_equal(a, b):
+    a, b = np.asarray(a, dtype=float), np.asarray(b, dtype=float)
+    return a.shape == b.shape and bool(np.all((a == b) |
+                                              (np.isnan(a) & np.isnan(b))))
+
+
+def recheck_all(history, where, what):
+    """Reading properties (in any order, on any partition of the case) must
+    not change any object: all invariants again on every partition, and
+    partitions with identical data must agree on the derived quantities."""
+    for old_part, old_model, label in history:
+        try:
+            check_invariants(old_part, old_model, where)
+        except Violation as v:
+            raise Violation(v.signature, '{}: partition "{}" no longer '
+                            'satisfies: {}'.format(what, label, v.detail))
+    for i in range(len(history)):
+        for j in range(i + 1, len(history)):
+            pi, mi, li = history[i]
+            pj, mj, lj = history[j]
+            if len(mi) == 0 or len(mi) != len(mj) or not all(
+                    np.array_equal(a.c, b.c) and a.lo == b.lo and a.hi == b.hi
+                    for a, b in zip(mi, mj)):
+                continue
+            if not (pi == pj) or not _nan_equal(pi.cell_sides,
+                                                pj.cell_sides) or \
+                    not _nan_equal(pi.cell_volume, pj.cell_volume):
+                raise Violation(
+                    'C14|invariant|equal-partitions-differ|' + where,
+                    '{}: "{}" and "{}" hold identical data but cell_sides '
+                    '{} vs {}, cell_volume {!r} vs {!r}, == {}'.format(
+                        what, li, lj, pi.cell_sides, pj.cell_sides,
+                        pi.cell_volume, pj.cell_volume, pi == pj))
 
 
 def mutate_arrays(arrays, how):
@@ -1364,6 +1535,8 @@ def check_variants(init, part, model):
 
 REQUIRED_STRATA = [
     'ctor:uniform', 'ctor:nonuniform', 'ctor:rect', 'ctor:fromgrid',
+    'ctor:shared', 'shared:one-point-axis', 'shared:same-set-object',
+    'op:query-order',
     'inputs-as:float64-ndarray', 'op:mutate-inputs',
     'mutate-inputs:ndarray-inputs', 'nob_style:bare',
     'given:mMn', 'given:mnd', 'given:Mnd', 'given:mMd', 'given:mMnd',
